@@ -219,6 +219,8 @@ def check_writer_result(prog, rep, rule):
                     return 1 if v.fields['ErrorCode'] == codes['Success'] else 0
             if callee['n'] in ('write', 'put', 'operator<<') and 'basic_ostream' in q:
                 it.act('WRITE')
+            if 'CEncodedStreamWriter' in q and callee['id'] in it.prog.funcs and callee['n'] not in ('Write',) and depth < it.max_depth:
+                return NotImplemented        # a private helper of the writer (WriteRaw): interpreted in place
             for a in args:
                 it.ev(fr, a, depth)
             if obj is not None:
@@ -235,7 +237,7 @@ def check_writer_result(prog, rep, rule):
         rep.touch(f)
         bad = None
         for cname in ('Success', 'UnexpectedEnd', 'InvalidSequence'):
-            it = Interp(prog, M(codes[cname]), max_depth=0, max_paths=200)
+            it = Interp(prog, M(codes[cname]), max_depth=2, max_paths=200)
 
             def init(it_, fr):
                 for p in f.params:
